@@ -7,9 +7,9 @@ src=$(realpath "$1"); id=$2; prop=$3; shift 3
 wt=$(mktemp -d /tmp/cs-XXXXXX)
 git -C /repo worktree add -q --detach "$wt" HEAD || exit 3
 cd "$wt"
-PYTHONPATH="$wt" /venv/bin/python "$src/demo.py" >/tmp/cs_clean.out 2>&1; c=$?
+PYTHONPATH="$wt" /venv/bin/python "$src/demo.py" >/tmp/cs_${id}_clean.out 2>&1; c=$?
 git apply "$src/patch.diff" || { echo "patch does not apply"; git -C /repo worktree remove --force "$wt"; exit 3; }
-PYTHONPATH="$wt" /venv/bin/python "$src/demo.py" >/tmp/cs_mut.out 2>&1; m=$?
+PYTHONPATH="$wt" /venv/bin/python "$src/demo.py" >/tmp/cs_${id}_mut.out 2>&1; m=$?
 suite=$(PYTHONPATH="$wt" /tmp/suite.sh "$wt" 2>&1 | head -3)
 head=$(git -C /repo rev-parse --short HEAD)
 cd /verif
@@ -29,5 +29,5 @@ json.dump(dict(id=id,property=prop,source="independent sub-agent given only the 
 P
   echo "stored /verif/seeded/$id"
 else
-  echo "NOT CONFIRMED: see /tmp/cs_clean.out /tmp/cs_mut.out"
+  echo "NOT CONFIRMED: see /tmp/cs_${id}_clean.out /tmp/cs_${id}_mut.out"
 fi
